@@ -11,6 +11,8 @@
 From Coq Require Import List ZArith NArith Bool Arith.
 From EasyML Require Import Base.Sx Model.Shape Model.Tensor Model.U64 Model.Fallible
      Proofs.ShapeP Proofs.C01P Proofs.C16P Proofs.C10P.
+From EasyML Require Model.Matrix Model.MatrixViews Model.Views Model.Transform Proofs.C10Matrix
+     Proofs.C12P Proofs.C12Partition Proofs.C02W Proofs.OdometerP.
 Import ListNotations.
 Open Scope N_scope.
 
@@ -41,6 +43,45 @@ Theorem C10_matrix_position_in_bounds : forall rows cols row col,
   row < rows -> col < cols -> row * cols + col < rows * cols.
 Proof. exact matrix_index_in_bounds. Qed.
 
+(* ---- matrices: the invariant in EVERY state reached by ANY mutation history, including states
+   left behind by a caught panic (imported from the C11 development) ---- *)
+Theorem C10_matrix_invariant_every_reached_state :
+  forall (T : Type) (s : Matrix.matrix T) (ops : list (Matrix.op T)),
+  C10Matrix.matrix_invariant s ->
+  Forall (fun r : Matrix.matrix T * bool => C10Matrix.matrix_invariant (fst r)) (Matrix.impl_trace s ops).
+Proof. exact C10Matrix.matrix_invariant_every_reached_state. Qed.
+
+(* ---- matrix views, any API-buildable stack (ranges, reversals, maps, partition parts,
+   quadrants, tensor round trips): every index reported present resolves, for the shared, mutable
+   and unchecked accessors alike, to a storage position inside the stored data; other indexes are
+   absent; nothing panics (imported from the C12 development) ---- *)
+Theorem C10_matrix_view_resolves_in_bounds :
+  forall (T : Type) (s : Matrix.matrix T) (v : MatrixViews.mview),
+  C10Matrix.matrix_invariant s -> C12Partition.stack (Matrix.m_rows s) (Matrix.m_cols s) v ->
+  forall row column,
+    (C12P.inside v row column = true ->
+       exists p, MatrixViews.try_get v row column = MatrixViews.Cell p /\
+                 C10Matrix.root_cell (Matrix.m_rows s) (Matrix.m_cols s) p /\
+                 p < N.of_nat (length (Matrix.m_data s)) /\
+                 exists x, nth_error (Matrix.m_data s) (N.to_nat p) = Some x) /\
+    (C12P.inside v row column = false -> MatrixViews.try_get v row column = MatrixViews.Absent) /\
+    MatrixViews.try_get v row column <> MatrixViews.AccessPanic.
+Proof. exact C10Matrix.matrix_view_resolves_in_bounds. Qed.
+
+(* ---- tensor views, any composition at any depth (all 13 adaptors incl. stack / chain / boxed /
+   matrix-backed): an index reported present resolves to an offset inside the stored data of
+   exactly one leaf (imported from the C02 development) ---- *)
+Theorem C10_tensor_view_resolves_in_bounds : forall v c idx l off, Views.v_ctor v = Ok c ->
+  Views.c_get c idx = Some (l, off) -> exists n, In (l, n) (Views.c_leaves c) /\ off < n.
+Proof. exact C02W.resolves_in_bounds. Qed.
+
+(* ---- iterators: the bare shape iterator (which drives every tensor iterator, from_fn, and the
+   mutable / owning iterators' unchecked accesses) only ever yields index tuples inside the
+   shape (imported from the C09 development) ---- *)
+Theorem C10_iterator_indexes_in_range : forall lens k x,
+  nth_error (Transform.all_indexes lens) k = Some x -> in_range x lens /\ flat x lens = N.of_nat k.
+Proof. exact OdometerP.all_indexes_nth. Qed.
+
 Example C10_nonvacuous : exists t : tensor Z,
   tensor_from [(0%nat, 2); (1%nat, 3)] (map Z.of_nat (seq 0 6)) = Ok t /\
   get_index_direct [1; 2] (t_strides t) (t_shape t) = Some 5 /\
@@ -52,3 +93,7 @@ Print Assumptions C10_write_preserves_invariant.
 Print Assumptions C10_position_in_bounds.
 Print Assumptions C10_position_no_overflow.
 Print Assumptions C10_matrix_position_in_bounds.
+Print Assumptions C10_matrix_invariant_every_reached_state.
+Print Assumptions C10_matrix_view_resolves_in_bounds.
+Print Assumptions C10_tensor_view_resolves_in_bounds.
+Print Assumptions C10_iterator_indexes_in_range.
